@@ -127,7 +127,9 @@ fn check_point(base: &Base, sc: &Scenario, cx: &Cx, key: &Key, torn: bool, n: &m
                     "listing of {d} in interrupted band {new_id}: got {gp:?}, the stitched listing restricted to it is {wp:?}"
                 );
             }
-            if let Some(first_file) = reference.iter().find(|(e, _)| e.kind == "File") {
+            // (a path used as a pattern must not contain glob metacharacters)
+            let plain = |p: &str| !p.chars().any(|c| matches!(c, '*' | '?' | '[' | ']' | '{' | '}' | '\\' | '!'));
+            if let Some(first_file) = reference.iter().find(|(e, _)| e.kind == "File" && plain(&e.apath)) {
                 let pat = vec![first_file.0.apath.clone()];
                 let l = ops::list_entries(&w.arch, &None, &Sel::Band(new_id), "/", &pat, 100_000);
                 ensure!(l.result.is_ok() && l.panic.is_none(), "C03/interrupted-version-listing-failed", "{}", l.describe());
